@@ -7,6 +7,11 @@ TRUSTED_BASE = [
 ]
 
 PROPS = {
+    "C06": dict(
+        assumptions=["Go map[string]int as an association list with get/set/delete; Go slices as lists; strings.Join(rule, \",\") as String.intercalate",
+                     "hypothesis WF06 (decidable, evaluated by the driver on every line): rules of the definition's arity with comma-free fields; update targets fresh; batches non-empty; filter in range"],
+        trusted=["modelled: model/policy.go (HasPolicy, AddPolicy incl. priority insertion, AddPolicies, RemovePolicy, RemovePolicies, UpdatePolicy, UpdatePolicies with its rollback, RemoveFilteredPolicy, GetFilteredPolicy) and the in-memory guards of internal_api.go; the rollback of UpdatePolicies iterates a Go map: modelled in ascending slot order, the generator avoids batches where the order is observable"],
+    ),
     "C02": dict(
         assumptions=["Go slices/arrays as Lean lists; float64 match results 0/1 as Bool",
                      "the matcher and govaluate are not involved in this property: match outcomes are driven by r.sub == p.sub"],
@@ -15,6 +20,7 @@ PROPS = {
 }
 
 LEVEL_TEXT = {
+    "C06": "Proved in Lean by refinement: from a coherent store, every management call whose arguments satisfy WF06 yields the list and boolean of the list-of-unique-rules specification and keeps list and index coherent (refine_step), hence every history does (refine_hist); corollaries: present iff listed, never listed twice, removal/update keep order, filtered queries/removals exact, false iff unchanged, key injectivity on comma-free rules. Tie: all histories of depth <=3 (quick) / <=4 (thorough) over a 16-op alphabet for p, p2 and g through the real Enforcer API with the exported PolicyMap observed after every call, plus seeded random histories over a hostile universe (outside WF06 only model = implementation is checked).",
     "C02": "Proved in Lean for every effect kind and every vector of any length: the streaming fill-merge-break loop of enforce() over the pre-sized arrays decides exactly as the four sentences of the property (stream_eq_spec), order-insensitivity of the three order-insensitive effects (spec_perm, stream_perm), first-determinate semantics of priority, truthfulness of the explanation index (explain_truthful), fail-closed on unknown expressions. The model is tied to the code by replaying all 6^n vectors (n<=5 quick, n<=7 thorough) x 5 effects through the real Enforce/EnforceEx/BatchEnforce and all direct MergeEffects calls on arrays up to length 3.",
 }
 
